@@ -15,7 +15,7 @@ import (
 // ---------------------------------------------------------------------------------------
 
 func structRoot(kind string, m map[string]VD) RootD {
-	return RootD{Kind: kind, Map: m, Plain: "P", Tagged: 7, Hidden: "H", List: []int{4, 5}, SubA: "a"}
+	return RootD{Kind: kind, Map: m, Plain: "P", Tagged: 7, Hidden: "H", List: []int{4, 5}, SubA: "a", Short: "short-id", Long: "LONG-ID"}
 }
 
 // enumRoots: nil, map, struct, pointer to struct, struct whose field is shadowed by the root map,
@@ -59,7 +59,7 @@ func alphabet(pos int) []Op {
 }
 
 func zooNode(name string, rich bool) VD {
-	m := map[string]VD{"Name": vStr(name), "Title": vStr("t-" + name), "hidden": vStr("h-" + name)}
+	m := map[string]VD{"Name": vStr(name), "Title": vStr("t-" + name), "hidden": vStr("h-" + name), "Short": vStr("short-" + name), "Long": vStr("LONG-" + name)}
 	if rich {
 		m["Count"] = vInt(3)
 		m["Any"] = vMap("mapss", map[string]VD{"k": vStr("s")})
@@ -308,6 +308,10 @@ func (g genCtx) node(t *rapid.T, depth int) VD {
 	opt := func(name string) bool { return rapid.IntRange(0, 2).Draw(t, "has"+name) > 0 }
 	if opt("Title") {
 		m["Title"] = vStr("title")
+	}
+	if opt("ids") {
+		m["Short"] = vStr("short-id")
+		m["Long"] = vStr("LONG-ID")
 	}
 	if opt("Count") {
 		m["Count"] = vInt(rapid.IntRange(0, 5).Draw(t, "Count"))
